@@ -23,4 +23,7 @@ def run(chk, args):
         {"family": "sa", "ns": "3,4", "count": 15 if q else 100, "length": 12, "gaps": 1},
         {"family": "float_sa", "ns": "3,4,5", "count": 12 if q else 80, "length": 10, "gaps": 1},
         {"family": "float_sam", "ns": "3,4", "count": 10 if q else 60, "length": 10, "gaps": 1, "reps": "0,2"},
+        # player counts beyond 6: 2^n passes 64 (seeds C04-d, C08-d: a 64-bit key over coalitions silently wraps there)
+        {"family": "paths_sa", "ns": "7", "count": 3 if q else 16, "length": 10, "gaps": 1},
+        {"family": "paths_sam", "ns": "7", "count": 2 if q else 12, "length": 8, "gaps": 1, "reps": "0,1"},
     ])
